@@ -122,89 +122,104 @@ pub fn case(input: &[Term]) -> Vec<(String, String)> {
 /// also on an iterator that has already yielded items (a second use). Vectors with <= 3 undecided positions.
 pub fn adaptor_case(input: &[Term]) -> Vec<(String, String)> {
     let mut out = vec![];
-    for three in [false, true] {
-        let name = if three { "three-valued" } else { "two-valued" };
-        let mk = || -> Box<dyn Iterator<Item = Vec<Term>>> {
-            if three {
-                Box::new(ThreeValuedInterpretationsIterator::new(input))
-            } else {
-                Box::new(TwoValuedInterpretationsIterator::new(input))
-            }
-        };
-        let r = guard(|| {
-            let mut found: Vec<String> = vec![];
-            let plain: Vec<Vec<Term>> = mk().take(100).collect();
-            let total = plain.len();
-            for p in 0..=total.min(4) {
-                for n in 0..=(total + 1).min(6) {
-                    let mut it = mk();
-                    for _ in 0..p {
-                        it.next();
-                    }
-                    let got = it.nth(n);
-                    let want = plain.get(p + n).cloned();
-                    if got != want {
-                        found.push(format!("after {} item(s) nth({}) yields {:?}, the plain enumeration has {:?} there", p, n, got.map(|x| show(&x)), want.map(|x| show(&x))));
-                    }
-                    // and the iterator goes on behind it
-                    let next = it.next();
-                    let want_next = plain.get(p + n + 1).cloned();
-                    if p + n < total && next != want_next {
-                        found.push(format!("after {} item(s) and nth({}) the next item is {:?} instead of {:?}", p, n, next.map(|x| show(&x)), want_next.map(|x| show(&x))));
-                    }
-                }
-                let mut it = mk();
-                for _ in 0..p {
-                    it.next();
-                }
-                let c = it.count();
-                if c != total - p.min(total) {
-                    found.push(format!("after {} item(s) count() is {} of {} items", p, c, total));
-                }
-                let mut it = mk();
-                for _ in 0..p {
-                    it.next();
-                }
-                if it.last() != if p < total { plain.last().cloned() } else { None } {
-                    found.push(format!("after {} item(s) last() is not the last item of the enumeration", p));
-                }
-                for step in 1..=3usize {
-                    let mut it = mk();
-                    for _ in 0..p {
-                        it.next();
-                    }
-                    let got: Vec<Vec<Term>> = it.step_by(step).collect();
-                    let want: Vec<Vec<Term>> = plain.iter().skip(p).step_by(step).cloned().collect();
-                    if got != want {
-                        found.push(format!("after {} item(s) step_by({}) yields {} items, {} expected", p, step, got.len(), want.len()));
-                    }
-                    let mut it = mk();
-                    for _ in 0..p {
-                        it.next();
-                    }
-                    let got: Vec<Vec<Term>> = it.skip(step).collect();
-                    let want: Vec<Vec<Term>> = plain.iter().skip(p + step).cloned().collect();
-                    if got != want {
-                        found.push(format!("after {} item(s) skip({}) yields {} items, {} expected", p, step, got.len(), want.len()));
-                    }
-                }
-            }
-            let (lo, hi) = mk().size_hint();
-            if lo > total || hi.map(|h| h < total).unwrap_or(false) {
-                found.push(format!("size_hint ({}, {:?}) excludes the real number of items {}", lo, hi, total));
-            }
-            found
-        });
-        match r {
-            Err(m) => out.push((format!("{}:panic", name), m)),
-            Ok(found) => {
-                for f in found.into_iter().take(3) {
-                    out.push((format!("{}:adaptor", name), f));
-                }
+    // the concrete iterator types are used (a boxed trait object would route the provided methods through `next` and
+    // hide an override)
+    let r = guard(|| adaptor_checks(|| TwoValuedInterpretationsIterator::new(input)));
+    match r {
+        Err(m) => out.push(("two-valued:panic".into(), m)),
+        Ok(found) => out.extend(found.into_iter().take(3).map(|f| ("two-valued:adaptor".to_string(), f))),
+    }
+    let r = guard(|| adaptor_checks(|| ThreeValuedInterpretationsIterator::new(input)));
+    match r {
+        Err(m) => out.push(("three-valued:panic".into(), m)),
+        Ok(found) => out.extend(found.into_iter().take(3).map(|f| ("three-valued:adaptor".to_string(), f))),
+    }
+    out
+}
+
+fn adaptor_checks<I: Iterator<Item = Vec<Term>>>(mk: impl Fn() -> I) -> Vec<String> {
+    let mut found: Vec<String> = vec![];
+    let mut plain: Vec<Vec<Term>> = vec![];
+    {
+        let mut it = mk();
+        while let Some(x) = it.next() {
+            plain.push(x);
+            if plain.len() > 100 {
+                break;
             }
         }
     }
-    out
+    let total = plain.len();
+    let advanced = |p: usize| {
+        let mut it = mk();
+        for _ in 0..p {
+            it.next();
+        }
+        it
+    };
+    // from every number of items already taken, up to and including all of them (the state in which everything was
+    // handed out but `None` has not been returned yet)
+    for p in 0..=total.min(9) {
+        for n in 0..=(total + 1).min(6) {
+            let mut it = advanced(p);
+            let got = it.nth(n);
+            let want = plain.get(p + n).cloned();
+            if got != want {
+                found.push(format!("after {} item(s) nth({}) yields {:?}, the plain enumeration has {:?} there", p, n, got.map(|x| show(&x)), want.map(|x| show(&x))));
+            }
+            let next = it.next();
+            let want_next = plain.get(p + n + 1).cloned();
+            if p + n < total && next != want_next {
+                found.push(format!("after {} item(s) and nth({}) the next item is {:?} instead of {:?}", p, n, next.map(|x| show(&x)), want_next.map(|x| show(&x))));
+            }
+        }
+        let left = total - p.min(total);
+        let c = advanced(p).count();
+        if c != left {
+            found.push(format!("after {} item(s) count() is {}, {} items are left", p, c, left));
+        }
+        if advanced(p).last() != if p < total { plain.last().cloned() } else { None } {
+            found.push(format!("after {} item(s) last() is not the last item of the enumeration (None when nothing is left)", p));
+        }
+        let folded = advanced(p).fold(0usize, |acc, x| acc + 1 + x.iter().filter(|t| t.is_true()).count());
+        let want_fold: usize = plain.iter().skip(p).map(|x| 1 + x.iter().filter(|t| t.is_true()).count()).sum();
+        if folded != want_fold {
+            found.push(format!("after {} item(s) fold() visits other items than next() would", p));
+        }
+        let mut visited = 0usize;
+        advanced(p).for_each(|_| visited += 1);
+        if visited != left {
+            found.push(format!("after {} item(s) for_each() visits {} items, {} are left", p, visited, left));
+        }
+        let collected: Vec<Vec<Term>> = advanced(p).collect();
+        if collected[..] != plain[p.min(total)..] {
+            found.push(format!("after {} item(s) collect() yields {} items, {} are left", p, collected.len(), left));
+        }
+        let pos = advanced(p).position(|x| Some(&x) == plain.last());
+        if pos != if left > 0 { Some(left - 1) } else { None } {
+            found.push(format!("after {} item(s) position() of the last item is {:?}", p, pos));
+        }
+        if advanced(p).max_by_key(|x| x.iter().filter(|t| t.is_true()).count()).is_some() != (left > 0) || advanced(p).min_by_key(|x| x.len()).is_some() != (left > 0) {
+            found.push(format!("after {} item(s) max_by_key / min_by_key disagree with the number of items left", p));
+        }
+        for step in 1..=3usize {
+            let got: Vec<Vec<Term>> = advanced(p).step_by(step).collect();
+            let want: Vec<Vec<Term>> = plain.iter().skip(p).step_by(step).cloned().collect();
+            if got != want {
+                found.push(format!("after {} item(s) step_by({}) yields {} items, {} expected", p, step, got.len(), want.len()));
+            }
+            let got: Vec<Vec<Term>> = advanced(p).skip(step).collect();
+            let want: Vec<Vec<Term>> = plain.iter().skip(p + step).cloned().collect();
+            if got != want {
+                found.push(format!("after {} item(s) skip({}) yields {} items, {} expected", p, step, got.len(), want.len()));
+            }
+        }
+        let (lo, hi) = advanced(p).size_hint();
+        if lo > left || hi.map(|h| h < left).unwrap_or(false) {
+            found.push(format!("after {} item(s) size_hint ({}, {:?}) excludes the real number of items left {}", p, lo, hi, left));
+        }
+    }
+    found
 }
 
 /// prefix check for vectors with many undecided positions: k undecided positions interleaved with decided ones
